@@ -321,6 +321,15 @@ def _match_pred(pred, rec):
     """pred: dict of field -> expected | {"in": [...]} | {"nonempty": bool} | {"ge": n} ...  (all must match)."""
     for key, want in pred.items():
         cur = rec
+        if key == "has_cycle" and "has_cycle" not in rec:
+            # derived from the input itself: does the graph of the record contain a directed cycle (self-loops included)?
+            try:
+                import networkx as nx
+                g = nx.DiGraph([tuple(e) for e in rec.get("edges", [])])
+                rec = dict(rec, has_cycle=not nx.is_directed_acyclic_graph(g))
+                cur = rec
+            except Exception:
+                return False
         for part in key.split("."):
             if isinstance(cur, dict) and part in cur:
                 cur = cur[part]
@@ -528,6 +537,7 @@ def normalize_model_rec(r):
     r.setdefault("nlen", [])           # node lengths parallel to nodes (node mode), same convention
     r.setdefault("lenattr", False)     # length_attr passed for its own sake (path-length factors)
     r.setdefault("cons_kind", "edge")
+    r.setdefault("ignpct", -1)         # elements_to_ignore_percentile (integer percent), -1 = not given
     r.setdefault("opt", {})
     r.setdefault("faults", {})
     r.setdefault("expect_solved", False)
